@@ -187,6 +187,24 @@ m("apply-func-before-source", "labrea/types.py",
 m("iter-reversed", "labrea/iterable.py",
   "        return (evaluatable.evaluate(options) for evaluatable in self.evaluatables)",
   "        return (evaluatable.evaluate(options) for evaluatable in reversed(self.evaluatables))", ["C05"])
+m("logeffect-logs-directly", "labrea/logging.py",
+  "        return LogRequest(self.level, self.name, self.msg, options or {}).run()",
+  "        return logging.getLogger(self.name).log(self.level, self.msg)", ["C18", "C16"])
+m("logged-after-skips-request", "labrea/logging.py",
+  "            value = self.evaluatable.evaluate(options)\n            self._request(options).run()\n            return value",
+  "            value = self.evaluatable.evaluate(options)\n            logging.getLogger(self.name).log(self.level, self.msg)\n            return value", ["C18"])
+m("log-function-wrong-level", "labrea/logging.py",
+  "    return LogRequest(logging.WARNING, name, msg, options).run()",
+  "    return LogRequest(logging.WARN + 10, name, msg, options).run()", ["C18"])
+m("inherit-setdefault", "labrea/runtime.py",
+  "        _RUNTIMES[threading.current_thread()] = _RUNTIMES.get(parent, Runtime())",
+  "        _RUNTIMES.setdefault(threading.current_thread(), _RUNTIMES.get(parent, Runtime()))", ["C15"])
+m("template-params-shared", "labrea/template.py",
+  "        params = {\n            f\":{key}:\": _literal(val.evaluate(options))\n            for key, val in self.params.items()\n        }",
+  "        params = self.__dict__.setdefault('_p', {})\n        for key, val in self.params.items():\n            params[f\":{key}:\"] = _literal(val.evaluate(options))", ["C09"])
+m("auto-build-memoised", "labrea/option.py",
+  "        option: Evaluatable = self.option(key)\n\n        for tform in self.transformations:\n            option = option >> tform\n\n        option.__doc__ = self.doc or option.__doc__\n\n        return option",
+  "        if hasattr(self, '_b'):\n            return self._b\n        option: Evaluatable = self.option(key)\n\n        for tform in self.transformations:\n            option = option >> tform\n\n        option.__doc__ = self.doc or option.__doc__\n        self._b = option\n        return option", ["C04"])
 
 
 def apply(mut, dest):
